@@ -118,6 +118,14 @@ CHECKS = {
                      "symmetric, 1 - Phi(Normal(a)) = a, and within 1e-6 / 5e-4 / 5e-3 of the committed reference table.",
                 note="the accuracy clause trusts the scipy-generated table spec/data/quantiles_ref.json (TLA+ cannot define transcendental quantiles); "
                      "'every alpha / every dof' is a grid, not a proof", ref="8/C17"),
+    "C18": dict(cat="exploration", technique="TLC-enumerated literal strings with DFA verdicts, exact integer angle fields, grid laws; replayed on the real functions",
+                text="Literals.tla defines deterministic acceptors of the documented float / integer / d-m-s literals and TLC enumerates every string over "
+                     "a 7-symbol alphabet up to length 5 (6 in the thorough tier) with the verdicts: IsFloat, IsInteger and deg2gon must agree exactly. "
+                     "Angles.tla computes the degree/minute/second fields of an angle given in cc exactly (1 gon = 3240 arc seconds) at 0..3 decimals: "
+                     "gon2deg must print exactly these fields and deg2gon must invert it. Geodesy.tla fixes the grid (all 48 ellipsoids x latitudes incl. "
+                     "poles x longitudes incl. +-180 x heights -10 km..20000 km) with exact anchors on the equator and at the poles, and lattice offsets "
+                     "in all quadrants for bearing/distance (anti)symmetry and consistency with coordinate differences.",
+                note="blh2xyz has no independent definition in TLA+ (trigonometry): round trip + exact anchors only", ref="8/C18"),
 }
 
 NOT_APPLICABLE = []
